@@ -8,9 +8,11 @@
   bit (`margin_calculation_function(self, sample, self.classifier)`), the
   per-sample correctness bit (`self.classifier.predict(x) == y`; the classifier is
   never refitted by MD3, so the bit of a sample is the same when it is supplied
-  and when `accuracy_score` is evaluated at the N-th label), and the k-fold
+  and when `accuracy_score` is evaluated at the N-th label).  The k-fold
   statistics `calculate_distribution_statistics` returns for a batch
-  (`Ref`: len, md, md_std, acc, acc_std).
+  (`Ref`: len, md, md_std, acc, acc_std) are an input *of this file*; they are
+  computed from per-fold bit lists by `Model/MD3Ref.lean` (`refStats`, `stepF`),
+  which `Props/C19Ref.lean` connects to the definitions below.
 
   Python statements are threaded through the state in source order; a `raise`
   returns the state *as it is at that point* together with the refusal reason, so
